@@ -35,6 +35,18 @@ func (api *API) VerifVerifyPeerCertificate(fingerprints []DTLSFingerprint, rawCe
 	return t.verifyPeerCertificateFunc()(rawCerts, nil)
 }
 
+// VerifVerifyPeerCertificateChain runs the DTLS VerifyPeerCertificate callback
+// on a whole certificate chain and also returns what the transport recorded as
+// the remote certificate (GetRemoteCertificate) afterwards.
+func (api *API) VerifVerifyPeerCertificateChain(
+	fingerprints []DTLSFingerprint, rawCerts [][]byte,
+) (remote []byte, err error) {
+	t := &DTLSTransport{api: api, remoteParameters: DTLSParameters{Fingerprints: fingerprints}}
+	err = t.verifyPeerCertificateFunc()(rawCerts, nil)
+
+	return t.GetRemoteCertificate(), err
+}
+
 // VerifFingerprintErrClass names the sentinel an extraction / validation
 // error is.
 func VerifFingerprintErrClass(err error) string {
